@@ -21,7 +21,7 @@ from ..core import pmap
 
 LEVEL = "model_checking"
 
-CTC_WIDTHS = [1, 31, 32, 33, 448, 481, 3841, 8000]
+CTC_WIDTHS = [1, 32, 33, 448, 481, 500, 3841, 8000]     # 481 and 500 share a 32-px bucket and fill a batch each: consecutive batches of the same shape, different extent
 CTC_WIDTHS_T = [1, 4, 31, 32, 33, 63, 448, 449, 481, 3841, 7616, 8000]
 TRF_WIDTHS = [1, 16, 64, 65, 112, 113, 160, 200]
 MODES = {"sparse": {"sparse": 1, "tight": 0, "nolog": 0}, "dense-tight": {"sparse": 0, "tight": 1, "nolog": 0},
